@@ -261,6 +261,23 @@ for _k, _v in REVERTS.items():
     M[_k] = (None, None, None, _v[1], "git revert of fix commit %s: %s" % (_v[0], _v[2]))
 
 
+
+
+def _save_evidence():
+    """checks rewrite /verif/evidence/<id>.json on every run: keep the committed files while a defect is applied"""
+    import shutil, tempfile
+    d = tempfile.mkdtemp(prefix="evidence_keep_")
+    shutil.copytree("/verif/evidence", d + "/evidence")
+    return d
+
+
+def _restore_evidence(d):
+    import shutil
+    shutil.rmtree("/verif/evidence", ignore_errors=True)
+    shutil.copytree(d + "/evidence", "/verif/evidence")
+    shutil.rmtree(d, ignore_errors=True)
+
+
 def apply(name, root=REPO):
     if name in REVERTS:
         d = subprocess.run(["git", "-C", root, "show", REVERTS[name][0], "--", "src"], stdout=subprocess.PIPE, text=True, check=True).stdout
@@ -301,6 +318,7 @@ def main():
         props = a[2:] or M[name][3]
         apply(name)
         rc_all = {}
+        keep = _save_evidence()
         try:
             for p in props:
                 r = subprocess.run(["/verif/vcheck", p, "--tier", "quick"], stdout=subprocess.PIPE, stderr=subprocess.STDOUT, text=True)
@@ -309,6 +327,7 @@ def main():
                 print("\n".join(l[:300] for l in tail[-6:]))
         finally:
             revert()
+            _restore_evidence(keep)
         print("RESULT %s %s" % (name, rc_all))
         import json
         rp = "/verif/seeded/own_results.json"
